@@ -22,9 +22,10 @@ from fractions import Fraction
 
 ID = "C20"
 DRIVER = "drv_c20"
-LEAN_TARGETS = ["PharmpyProofs.C20.Properties", "PharmpyProofs.C20.CovProperties", "PharmpyProofs.C20.ResultsProperties", "drv_c20"]
+LEAN_TARGETS = ["PharmpyProofs.C20.Properties", "PharmpyProofs.C20.CovProperties", "PharmpyProofs.C20.ResultsProperties",
+                "PharmpyProofs.C20.JsonProperties", "drv_c20"]
 PROPERTIES = ["PharmpyProofs/C20/Properties.lean", "PharmpyProofs/C20/CovProperties.lean",
-              "PharmpyProofs/C20/ResultsProperties.lean"]
+              "PharmpyProofs/C20/ResultsProperties.lean", "PharmpyProofs/C20/JsonProperties.lean"]
 LEAN_SOURCES = ["PharmpyModel/C20/*.lean", "PharmpyModel/Generated/ExtCodes.lean", "PharmpyProofs/C20/*.lean",
                 "Drivers/C20.lean", "PharmpyModel/Core/Sexp.lean"]
 TIME_LIMIT = {"quick": 900, "thorough": 3000}
@@ -60,7 +61,7 @@ C_FINAL, C_SE, C_EIGEN, C_COND, C_SDCORR, C_SDCORR_SE, C_FIXED = SPECIAL[:7]
 
 
 def budget(tier):
-    return int(os.environ.get("VERIF_BUDGET", 0)) or {"quick": 1200, "thorough": 16000}[tier]
+    return int(os.environ.get("VERIF_BUDGET", 0)) or {"quick": 1000, "thorough": 16000}[tier]
 
 
 def translators():
@@ -551,7 +552,8 @@ def gen_rundir(rng):
     elif r < 0.30:
         rows["sdcorr"] = False
     return {"kind": "rundir", "nth": nth, "nom": nom, "a": a, "blocks": blocks, "est": est,
-            "se": [e * q for e, q in zip(est, rel)], "files": files, "fixed": fixed, "rows": rows}
+            "se": [e * q for e, q in zip(est, rel)], "files": files, "fixed": fixed, "rows": rows,
+            "table": gen_table_pattern(rng)}
 
 
 def gen_json(rng):
@@ -568,7 +570,72 @@ def gen_json(rng):
             "ofv": float(cell_value(gen_obj(rng))) if nonmem else rng.uniform(-1e4, 1e4),
             "se": {lab: abs(val()) for lab in labs} if rng.random() < 0.7 else None,
             "ids": sorted(rng.sample(range(1, 50), rng.randint(1, 5))), "neta": rng.randint(1, 3),
-            "matrix": rng.random() < 0.6}
+            "matrix": rng.random() < 0.6, "frames": [gen_index_kind(rng) for _ in range(2)]}
+
+
+INDEX_KINDS = ["range0", "range", "range", "ints", "multi-named", "multi-unnamed", "named", "empty", "float", "str",
+               "multi3", "dups", "reserved-name"]
+
+
+def gen_index_kind(rng):
+    """index of a residuals/predictions-like frame: every kind pandas produces on pharmpy's code paths"""
+    kind = rng.choice(INDEX_KINDS)
+    n = 0 if kind == "empty" else rng.randint(1, 6)
+    d = {"kind": kind, "n": n, "ncol": rng.randint(1, 3)}
+    if kind == "range":
+        d["start"], d["step"] = rng.randint(0, 5), rng.choice([1, 1, 2, 2, 3, 7])
+        if d["start"] == 0 and d["step"] == 1:
+            d["start"] = 1
+    elif kind in ("ints", "named", "reserved-name"):
+        d["labels"] = sorted(rng.sample(range(0, 40), n))
+    elif kind == "dups":
+        n = d["n"] = max(n, 2)
+        labs = sorted(rng.choice(range(0, 6)) for _ in range(n))
+        labs[1] = labs[0]
+        d["labels"] = labs
+    elif kind in ("multi-named", "multi-unnamed", "multi3"):
+        ids = sorted(rng.choice(range(1, 4)) for _ in range(n))
+        seen, labs = {}, []
+        for i in ids:
+            seen[i] = seen.get(i, -1) + 1
+            labs.append([i, seen[i] * 0.5] + ([seen[i] % 2] if kind == "multi3" else []))
+        d["labels"] = labs
+    elif kind == "float":
+        d["labels"] = [0.25 + 0.5 * i for i in range(n)]
+    elif kind == "str":
+        d["labels"] = [f"r{i}" for i in rng.sample(range(30), n)]
+    return d
+
+
+TABLE_PATTERNS = ["none", "sparse", "sparse", "single-leading-dose", "regular", "obs-only", "irregular", "dose-last",
+                  "every-third", "one-row"]
+
+
+def gen_table_pattern(rng):
+    """dose/observation layout of the $TABLE rows (True = observation record)"""
+    pat = rng.choice(TABLE_PATTERNS)
+    if pat == "none":
+        return {"pattern": pat, "rows": []}
+    if pat == "sparse":                # one dose + one observation per individual: observations at rows 1, 3, 5, ...
+        nid = rng.randint(1, 5)
+        rows = [[i + 1, o] for i in range(nid) for o in (False, True)]
+    elif pat == "single-leading-dose":  # rows 1..n-1
+        rows = [[1, False]] + [[1, True] for _ in range(rng.randint(1, 6))]
+    elif pat == "regular":
+        nid, m = rng.randint(1, 3), rng.randint(1, 3)
+        rows = [[i + 1, o] for i in range(nid) for o in [False] + [True] * m]
+    elif pat == "obs-only":
+        rows = [[i // 2 + 1, True] for i in range(rng.randint(1, 6))]
+    elif pat == "dose-last":
+        rows = [[1, True] for _ in range(rng.randint(1, 4))] + [[1, False]]
+    elif pat == "every-third":
+        nid = rng.randint(1, 4)
+        rows = [[i + 1, o] for i in range(nid) for o in (False, False, True)]
+    elif pat == "one-row":
+        rows = [[1, rng.random() < 0.5]]
+    else:
+        rows = [[i // 3 + 1, rng.random() < 0.6] for i in range(rng.randint(2, 9))]
+    return {"pattern": pat, "rows": rows}
 
 
 def gen_cases(rng, n, tier):
@@ -646,7 +713,15 @@ def corpus_cases():
     rd4 = {**rd, "files": ["cov", "coi"], "fixed": [True, False, True, False], "rows": {**allrows, "fixedrow": False}, "seed": 10}
     # no sd/corr row -1000000004 (NaN fallback was indexed by (step, iteration) before df197aa)
     rd5 = {**rd, "files": ["cov"], "fixed": [False, False, True, False], "rows": {**allrows, "sdcorr": False}, "seed": 11}
-    return [ext, ext2, ext3, gen, gen2, gen3, rd, rd2, rd3, rd4, rd5]
+    # sparse design: one dose + one observation per individual -> residuals carry RangeIndex(1, n, 2)
+    rd6 = {**rd, "files": ["cov"], "fixed": [False] * 4, "rows": allrows, "seed": 12,
+           "table": {"pattern": "sparse", "rows": [[1, False], [1, True], [2, False], [2, True], [3, False], [3, True]]}}
+    rd7 = {**rd6, "seed": 13, "table": {"pattern": "single-leading-dose", "rows": [[1, False], [1, True], [1, True], [1, True]]}}
+    js = {"kind": "json", "labels": ["THETA1", "OMEGA(1,1)"], "nonmem": True, "pe": {"THETA1": 1.5, "OMEGA(1,1)": 0.25}, "ofv": 12.5,
+          "se": None, "ids": [1, 2], "neta": 1, "matrix": False, "seed": 14,
+          "frames": [{"kind": "range", "n": 3, "ncol": 2, "start": 1, "step": 2},
+                     {"kind": "multi-named", "n": 3, "ncol": 1, "labels": [[1, 0.0], [1, 0.5], [2, 0.0]]}]}
+    return [ext, ext2, ext3, gen, gen2, gen3, rd, rd2, rd3, rd4, rd5, rd6, rd7, js]
 
 
 def shrink(case):
@@ -1497,6 +1572,23 @@ def run_rundir(case, drv, k, mon, tags):
           [f"$THETA (0,{sci_to_str(est[f'THETA{i+1}'])}){fx(f'THETA{i+1}')}" for i in range(nth)] + \
           [f"$OMEGA {sci_to_str(est[f'OMEGA({i+1},{i+1})'])}{fx(f'OMEGA({i+1},{i+1})')}" for i in range(nom)] + \
           [f"$SIGMA {sci_to_str(est['SIGMA(1,1)'])}{fx('SIGMA(1,1)')}", "$ESTIMATION METHOD=1 INTER", "$COVARIANCE"]
+    # $TABLE output with a dose/observation pattern (non-observation records have RES = WRES = CWRES = 0)
+    trows = case.get("table", {"rows": []})["rows"]
+    tcols = ["ID", "TIME", "MDV", "PRED", "RES", "WRES", "CWRES"]
+    tab_lines, tab_cells = [], []
+    if trows:
+        trng = random.Random(case["seed"] ^ 0x5A5A)
+        tags.append("rundir:table=" + case["table"]["pattern"])
+        mod.append("$TABLE " + " ".join(tcols) + " NOAPPEND NOPRINT ONEHEADER FILE=sdtab1")
+        tprev = {}
+        for rid, obs in trows:
+            tprev[rid] = tprev.get(rid, -1) + 1
+            nz = lambda: gen_sci(trng, d=4, zero_p=0.0, neg_p=0.5)
+            zero = ["s", False, 4, 0, 0]
+            tab_cells.append([sci_cell(float(rid), 4), sci_cell(0.5 * tprev[rid], 4), sci_cell(0.0 if obs else 1.0, 4),
+                              gen_sci(trng, d=4, neg_p=0)] + ([nz(), nz(), nz()] if obs else [zero, zero, zero]))
+        ttab = {"number": 1, "now": 3, "title": None, "hw": 12, "names": tcols, "cols": [[12, "r"]] * len(tcols), "rows": tab_cells}
+        tab_lines = [render_title(ttab)] + render_body(ttab)
     root = scratch_root() / f"c20-run-{os.getpid()}"
     root.mkdir(parents=True, exist_ok=True)
     try:
@@ -1504,6 +1596,8 @@ def run_rundir(case, drv, k, mon, tags):
         (root / "run1.csv").write_text("ID,TIME,DV\n1,0,1.0\n1,1,2.0\n2,0,1.5\n2,1,2.5\n")
         (root / "run1.lst").write_text(RUN_LST)
         (root / "run1.ext").write_text("\n".join(ext_lines) + "\n")
+        if tab_lines:
+            (root / "sdtab1").write_text("\n".join(tab_lines) + "\n")
         for f, m in (("cov", covw), ("cor", corw), ("coi", coiw)):
             if f in files:
                 (root / f"run1.{f}").write_text("\n".join(matrix_lines(m)) + "\n")
@@ -1527,6 +1621,19 @@ def run_rundir(case, drv, k, mon, tags):
         mon.append({"cls": "rundir-missing", "what": "parse_modelfit_results returned None"})
         return
     info = f"files {files}, FIX {[lab for lab in par if fixed[lab]]}, rows {[c for c in present]}"
+    # ---- $TABLE-derived frames: values on the right records; then the JSON round trip of the whole results object
+    if trows:
+        obs_pos = [i for i, (_, o) in enumerate(trows) if o]
+        tinfo = f"$TABLE pattern {case['table']['pattern']} ({len(trows)} records, observations at {obs_pos[:6]})"
+        pr, rs = res.predictions, res.residuals
+        if pr is None or list(pr.index) != list(range(len(trows))) or list(map(str, pr.columns)) != ["PRED"] or \
+                not all(same_exact(cell_value(c[3]), v) for c, v in zip(tab_cells, pr["PRED"].values)):
+            mon.append({"cls": "rundir-predictions", "what": f"{tinfo}: predictions {None if pr is None else (list(pr.index)[:6], list(pr.columns))}"})
+        if rs is None or list(rs.index) != obs_pos or list(map(str, rs.columns)) != ["RES", "WRES", "CWRES"] or \
+                not all(same_exact(cell_value(tab_cells[i][4 + j]), rs.iloc[q, j]) for q, i in enumerate(obs_pos) for j in range(3)):
+            mon.append({"cls": "rundir-residuals-wrong-records",
+                        "what": f"{tinfo}: residuals are reported for records {None if rs is None else list(rs.index)[:8]}"})
+    roundtrip_results(res, drv, k, mon, tags, f"results of a run directory ({case.get('table', {}).get('pattern', 'no $TABLE')})")
     # pharmpy order: THETA, OMEGA, SIGMA; estimated parameters only
     order_labs = [lab for lab in ([f"THETA{i+1}" for i in range(nth)] + [f"OMEGA({i+1},{i+1})" for i in range(nom)] + ["SIGMA(1,1)"])
                   if not fixed[lab]]
@@ -1651,8 +1758,181 @@ def sci_to_str(x):
     return render_cell(sci_cell(x))
 
 
-def run_json(case, mon, tags):
-    from pharmpy.workflows.results import ModelfitResults, read_results
+def canon_label(v):
+    """canonical text of an index label / JSON scalar"""
+    if isinstance(v, (bool, np.bool_)):
+        return str(bool(v))
+    if isinstance(v, (int, np.integer)):
+        return str(int(v))
+    if isinstance(v, (float, np.floating)):
+        return repr(float(v))
+    return str(v)
+
+
+def index_rows(idx):
+    if isinstance(idx, pd.MultiIndex):
+        return [[canon_label(x) for x in t] for t in idx]
+    return [[canon_label(x)] for x in idx]
+
+
+def frame_parts(x):
+    """(index names, index label rows, column names) of a Series / DataFrame"""
+    df = x.to_frame() if isinstance(x, pd.Series) else x
+    return [n if n is None else str(n) for n in df.index.names], index_rows(df.index), [str(c) for c in df.columns], df
+
+
+def same_label_rows(a, b):
+    """index labels equal (numbers by value)"""
+    if len(a) != len(b):
+        return False
+    for ra, rb in zip(a, b):
+        if len(ra) != len(rb):
+            return False
+        for u, v in zip(ra, rb):
+            if u != v:
+                try:
+                    if float(u) != float(v):
+                        return False
+                except ValueError:
+                    return False
+    return True
+
+
+def k_json_frame(what, x, drv, k, tags):
+    """the table JSON form written by _df_to_json vs the Lean encoder: field names, primary key, and the index
+    labels stored in every record (cell values are compared by the round trip monitor)"""
+    from pharmpy.workflows.results import _df_to_json
+    names, irows, cols, df = frame_parts(x)
+    if isinstance(x, pd.Series) and x.size >= 1 and isinstance(x.iloc[0], pd.DataFrame):
+        return
+    import warnings
+    try:
+        with warnings.catch_warnings():
+            warnings.simplefilter("ignore")
+            js = _df_to_json(df.copy())
+    except Exception as e:  # noqa
+        tags.append(f"k-skip:to_json-raises-{type(e).__name__}")
+        return
+    cells = [["c"] * len(cols) for _ in irows]
+    ans = drv.ask(["jsontable", [none_or(n) for n in names], irows, cols, cells])
+    if is_err(ans):
+        k.append(f"json {what}: model {ans}")
+        return
+    mfields, mpk, mdata, _ = ans
+    cfields = [f["name"] for f in js["schema"]["fields"]]
+    cpk = js["schema"].get("primaryKey", [])
+    if mfields != cfields or mpk != list(cpk):
+        k.append(f"json {what}: schema model fields {mfields} primaryKey {mpk}, code fields {cfields} primaryKey {cpk}")
+        return
+    if len(mdata) != len(js["data"]):
+        k.append(f"json {what}: model {len(mdata)} records, code {len(js['data'])}")
+        return
+    nidx = len(names)
+    for i, (mr, cr) in enumerate(zip(mdata, js["data"])):
+        if [kv[0] for kv in mr] != list(cr.keys()):
+            k.append(f"json {what}: record {i} keys model {[kv[0] for kv in mr]} code {list(cr.keys())}")
+            return
+        ml = [kv[1] for kv in mr[:nidx]]
+        cl = [canon_label(cr[kv[0]]) for kv in mr[:nidx]]
+        if not same_label_rows([ml], [cl]):
+            k.append(f"json {what}: record {i} index labels model {ml} code {cl}")
+            return
+
+
+def frames_of(res):
+    out = {}
+    for f, v in vars(res).items():
+        if isinstance(v, (pd.Series, pd.DataFrame)):
+            out[f.lstrip("_")] = v
+    return out
+
+
+def roundtrip_results(res, drv, k, mon, tags, ctx):
+    """read_results(to_json(r)) == r for every Series / DataFrame of a results object: index labels (exactly), index
+    names, column labels, values"""
+    from pharmpy.workflows.results import read_results
+    import warnings
+    frames = frames_of(res)
+    try:
+        with warnings.catch_warnings():
+            warnings.simplefilter("ignore")
+            back = read_results(res.to_json())
+    except Exception as e:  # noqa
+        dup = [f for f, v in frames.items() if not v.index.is_unique]
+        mon.append({"cls": "json-roundtrip-duplicate-index-labels" if dup else "json-roundtrip-error",
+                    "what": f"{ctx}: to_json/read_results raised {type(e).__name__}: {e}"})
+        return None
+    for f, v in frames.items():
+        w = getattr(back, f, None)
+        if isinstance(v, pd.Series) and v.size >= 1 and isinstance(v.iloc[0], pd.DataFrame):
+            continue
+        if drv is not None:
+            k_json_frame(f, v, drv, k, tags)
+        names, irows, cols, df = frame_parts(v)
+        tags.append("json-index:" + type(v.index).__name__ + ("" if v.index.is_unique else "-dups") +
+                    ("-named" if any(n is not None for n in names) else ""))
+        if isinstance(v.index, pd.RangeIndex) and len(v.index) and (v.index.start != 0 or v.index.step != 1):
+            tags.append("json-index:RangeIndex-nonbasic")
+        if type(w) is not type(v):
+            mon.append({"cls": "json-roundtrip-" + f, "what": f"{ctx}: {f} comes back as {type(w).__name__}"})
+            continue
+        wn, wrows, wcols, wdf = frame_parts(w)
+        if not same_label_rows(irows, wrows):
+            if not v.index.is_unique:
+                cls = "json-roundtrip-duplicate-index-labels"
+            else:
+                cls = "json-roundtrip-index-lost"
+            mon.append({"cls": cls, "what": f"{ctx}: {f} has index {type(v.index).__name__} {irows[:4]} and comes back with "
+                        f"{type(w.index).__name__} {wrows[:4]} (columns {wcols})"})
+            continue
+        if wn != names:
+            reserved = any(n is not None and (n == "index" or n.startswith("level_")) for n in names)
+            mon.append({"cls": "json-roundtrip-reserved-index-name" if reserved else "json-roundtrip-index-names",
+                        "what": f"{ctx}: {f} index names {names} come back as {wn}"})
+            continue
+        if wcols != cols:
+            mon.append({"cls": "json-roundtrip-columns", "what": f"{ctx}: {f} columns {cols} come back as {wcols}"})
+            continue
+        try:
+            a, b = np.asarray(wdf.values, dtype=float), np.asarray(df.values, dtype=float)
+        except (ValueError, TypeError):
+            if not (wdf.astype(str).values == df.astype(str).values).all():
+                mon.append({"cls": "json-roundtrip-" + f, "what": f"{ctx}: {f} values differ"})
+            continue
+        if a.shape != b.shape:
+            mon.append({"cls": "json-roundtrip-" + f, "what": f"{ctx}: {f} shape {b.shape} comes back as {a.shape}"})
+            continue
+        d = ~((a == b) | (np.isnan(a) & np.isnan(b)))
+        if d.any():
+            # decidable witness class: every differing value came back rounded to 15 decimal places
+            # (|x| < 1) or to 15 significant digits (exponent form)
+            # (0.5e-15 in the last printed decimal, plus the representation error of the two doubles)
+            if np.all((np.abs(a[d] - b[d]) <= 0.5e-15 + 2 * np.spacing(np.abs(b[d]))) | (np.abs(a[d] - b[d]) <= 1e-14 * np.abs(b[d]))):
+                mon.append({"cls": "json-roundtrip-15-decimal-places",
+                            "what": f"{f}: {b[d][0]!r} comes back as {a[d][0]!r} (written with 15 decimal places / 15 significant digits)"})
+            else:
+                mon.append({"cls": "json-roundtrip-" + f, "what": f"{ctx}: {f} values differ after read_results(to_json(r)): {a[d][0]!r} vs {b[d][0]!r}"})
+    return back
+
+
+def make_index(d):
+    kind, n = d["kind"], d["n"]
+    if kind == "range0" or kind == "empty":
+        return pd.RangeIndex(n)
+    if kind == "range":
+        return pd.RangeIndex(d["start"], d["start"] + n * d["step"], d["step"])
+    if kind in ("ints", "dups", "float", "str"):
+        return pd.Index(d["labels"])
+    if kind == "named":
+        return pd.Index(d["labels"], name="ID")
+    if kind == "reserved-name":
+        return pd.Index(d["labels"], name="index")
+    names = {"multi-named": ["ID", "TIME"], "multi-unnamed": None, "multi3": ["ID", "TIME", None]}[kind]
+    return pd.MultiIndex.from_tuples([tuple(x) for x in d["labels"]], names=names)
+
+
+def run_json(case, drv, k, mon, tags):
+    from pharmpy.workflows.results import ModelfitResults
     labs = case["labels"]
     pe = pd.Series({lab: case["pe"][lab] for lab in labs}, name="estimates")
     se = pd.Series({lab: case["se"][lab] for lab in labs}, name="SE") if case["se"] else None
@@ -1676,35 +1956,27 @@ def run_json(case, mon, tags):
             m = np.array([[rng.uniform(-1, 1) for _ in labs] for _ in labs])
             m = m @ m.T + np.eye(len(labs))
         kw["covariance_matrix"] = pd.DataFrame(m, index=labs, columns=labs)
+    # residuals / predictions-like frames with every kind of index
+    for fname, d, colnames in zip(("residuals", "predictions"), case.get("frames", []),
+                                  (["RES", "WRES", "CWRES"], ["PRED", "IPRED", "CIPREDI"])):
+        idx = make_index(d)
+        cols = colnames[:d["ncol"]]
+        kw[fname] = pd.DataFrame([[round(rng.uniform(-3, 3), 4) for _ in cols] for _ in range(len(idx))], index=idx, columns=cols)
+        tags.append("json-frame:" + d["kind"])
     try:
         res = ModelfitResults(**kw)
-        back = read_results(res.to_json())
     except Exception as e:  # noqa
-        mon.append({"cls": "json-roundtrip-error", "what": f"to_json/read_results raised {type(e).__name__}: {e}"})
+        mon.append({"cls": "json-roundtrip-error", "what": f"ModelfitResults raised {type(e).__name__}: {e}"})
         return
     tags.append("json:nonmem-6-digits" if nonmem else "json:full-precision")
-    for f, v in kw.items():
-        w = getattr(back, f)
-        if isinstance(v, (pd.Series, pd.DataFrame)):
-            ok = type(w) is type(v) and list(w.index) == list(v.index) and \
-                (not isinstance(v, pd.DataFrame) or list(map(str, w.columns)) == list(map(str, v.columns)))
-            if ok:
-                a, b = np.asarray(w.values, dtype=float), np.asarray(v.values, dtype=float)
-                if not np.array_equal(a, b):
-                    # decidable witness class: every differing value came back rounded to 15 decimal places
-                    # (|x| < 1) or to 15 significant digits (exponent form)
-                    d = a != b
-                    if np.all((np.abs(a[d] - b[d]) <= 0.5000001e-15) | (np.abs(a[d] - b[d]) <= 1e-14 * np.abs(b[d]))):
-                        mon.append({"cls": "json-roundtrip-15-decimal-places",
-                                    "what": f"{f}: {b[d][0]!r} comes back as {a[d][0]!r} (written with 15 decimal places / 15 significant digits)"})
-                        continue
-                    ok = False
-        elif v is None:
-            ok = w is None
-        else:
-            ok = w == v
-        if not ok:
-            mon.append({"cls": "json-roundtrip-" + f, "what": f"{f} differs after read_results(to_json(r)): {str(w)[:80]!r} vs {str(v)[:80]!r}"})
+    back = roundtrip_results(res, drv, k, mon, tags, "ModelfitResults built directly")
+    if back is None:
+        return
+    for f in ("ofv", "minimization_successful", "significant_digits", "runtime_total", "function_evaluations"):
+        if getattr(back, f) != kw[f]:
+            mon.append({"cls": "json-roundtrip-" + f, "what": f"{f} differs after read_results(to_json(r))"})
+    if se is None and back.standard_errors is not None:
+        mon.append({"cls": "json-roundtrip-standard_errors", "what": "None comes back as a value"})
 
 
 def run_case(case, drv):
@@ -1718,7 +1990,7 @@ def run_case(case, drv):
         run_relations(case, drv, k, mon, tags)
         return {"k": k, "mon": mon, "tags": tags, "nontrivial": True}
     if kind == "json":
-        run_json(case, mon, tags)
+        run_json(case, drv, k, mon, tags)
         return {"k": k, "mon": mon, "tags": tags, "nontrivial": True}
     if not POSTS:
         _load_posts()
